@@ -13,6 +13,7 @@ pub const TOKENS: &[&str] = &[
     "/* /* */", "WHITESPACE", "COMMENT", "ANY", "SOI", "EOI", "POP", "PEEK", "DROP", "PEEK_ALL", "POP_ALL", "_", "@", "$", "!", "&", "~", "|", "*", "+", "?", "=",
     "=_{", "={", "a", "a =", "a = { a }", "b = { \"x\" }", "-", "-0", "-1", "0", "é", "🎈", "\u{0}", "\r\n", "\n", " ", "\t", "\\", ",", "ASCII_DIGIT", "LETTER", "self",
     "PUSH", "PUSHa", "PEEKa", "\u{feff}", "#PUSHED = ", "#PUSH", "#PUSH_a", "#PEEK = ", "#_ = ", "#a1_ = ", "#1", "# t = ", "#t=#u=", "PUSH_LITERAL", "PUSHED", "PUSH_x = { \"a\" }",
+    "\"é\\u{D800}\"", "'\\u{110000}'", "^\"a→\\u{110000}\"", "\"😀b\\u{DFFF}\"", "\"ééé\\q\"", "'→\\x'", "(\"a\"{2} ~ \":\"){1,3}", "((ASCII_DIGIT{1,4} ~ \"-\")? ~ \"_\"){2,5}",
     "POPx", "ANYa", "_PUSH", "a_PUSH", "'\\u{41}'", "\"\\x41\\n\\t\\0\\'\"", "{ 1 , 2 }", "{,}", "{ }", "PEEK [ 1 .. ]", "PEEK[..-1]", "..", "...", "'a'..='z'", "=", "==",
 ];
 pub const BIGNUMS: &[&str] = &[
@@ -228,6 +229,9 @@ pub fn gen_text(r: &mut Rng, i: u64, files: &[(String, String)], cfg: &GenCfg) -
     if i % 20 == 19 {
         return (skipper_family(r), "skipper_inlining_chain", "template");
     }
+    if i % 200 == 57 {
+        return (layered_family(r), "layered_reference_dag", "template");
+    }
     let (text, kind, source): (String, &'static str, &'static str) = match i % 10 {
             0..=4 if !files.is_empty() => {
                 let (_, t) = r.pick(&files);
@@ -316,5 +320,28 @@ pub fn skipper_family(r: &mut Rng) -> String {
         let m = *r.pick(&["", "", "_", "@"]);
         out.push_str(&format!("{n} = {m}{{ {} }}\n", alts.join(" | ")));
     }
+    out
+}
+
+/// Grammars whose rules form a layered DAG: every layer references the next one several times
+/// (analysis passes that re-visit shared sub-rules without a memo take exponential time on these).
+pub fn layered_family(r: &mut Rng) -> String {
+    let layers = 18 + r.below(26);
+    let mut out = String::new();
+    let top_op = *r.pick(&["?", "*", ""]);
+    let stacky = r.chance(1, 4);
+    out.push_str(&format!("top = {{ (l0{top_op} ~ \";\") | \"x\" }}\n"));
+    for i in 0..layers {
+        let n = i + 1;
+        let body = match r.below(4) {
+            0 => format!("l{n} ~ \",\" ~ l{n}"),
+            1 => format!("l{n} | \"a\" ~ l{n}"),
+            2 => format!("l{n} ~ (\"b\" ~ l{n})?"),
+            _ => format!("(l{n} ~ \"c\")* ~ l{n} ~ l{n}"),
+        };
+        out.push_str(&format!("l{i} = {{ {body} }}\n"));
+    }
+    let last = if stacky { "PUSH(\"k\") ~ POP" } else { "\"k\"" };
+    out.push_str(&format!("l{layers} = {{ {last} }}\n"));
     out
 }
